@@ -145,7 +145,32 @@ def c05(tier: str) -> int:
         (TAGGED_CFGS, C05_CLAUSES, conv.ev_roundtrip, {}),
         (UNION_CFGS, C05_CLAUSES, conv.ev_roundtrip, {}),
         (SHIPPED_CFGS, C05_CLAUSES, conv.ev_roundtrip, {}),
-    ], extra=_random_stage(C05_CLAUSES, conv.ev_roundtrip, 5000, 100000))
+    ], extra=_both(_sem_laws, _random_stage(C05_CLAUSES, conv.ev_roundtrip, 5000, 100000)))
+
+
+def _sem_laws(rep, stats) -> None:
+    """Design level, no code involved (spec/PaneLaws.tla): the required semantics itself round-trips - its canonical
+    serialised form SerV satisfies the relational SerOK and reads back to the same image - on every state of the
+    grammar graph outside the named design gaps (F16/F40, F19, F21, F28); cross-checks: without naming the gaps TLC
+    must find counterexamples, every gap must be reached, and the law must apply somewhere."""
+    holds = ['MC_Laws_cls.cfg', 'MC_Laws_union.cfg', 'MC_Laws_tagged.cfg', 'MC_Laws_shipped.cfg']
+    if rep.tier == 'thorough':
+        holds += ['MC_Laws_scalar.cfg', 'MC_Laws_names.cfg', 'MC_Laws_core.cfg']
+    out = {}
+    for cfg in holds:
+        r = engine.model_check('MC_Laws', cfg, dump=False)
+        out[cfg] = {'expected': 'holds', 'violated': r.violated, 'distinct_states': r.distinct}
+        if r.violated:
+            raise tlc.MachineryError(f'{cfg}: the required semantics contradicts itself ({r.violated}); the specification, not pane, '
+                                     'is at fault:\n' + r.out[-2500:])
+    for cfg, inv in (('MC_Laws_x_strict_union.cfg', 'RoundTripLawStrict'), ('MC_Laws_x_strict_cls.cfg', 'RoundTripLawStrict'),
+                     ('MC_Laws_x_shadow.cfg', 'NoShadowGap'), ('MC_Laws_x_tuple.cfg', 'NoTupleGap'), ('MC_Laws_x_range.cfg', 'NoRangeGap'),
+                     ('MC_Laws_x_judged_cls.cfg', 'NeverJudged'), ('MC_Laws_x_judged_union.cfg', 'NeverJudged')):
+        r = engine.model_check('MC_Laws', cfg, dump=False)
+        out[cfg] = {'expected': f'{inv} violated', 'violated': r.violated}
+        if inv not in r.violated:
+            raise tlc.MachineryError(f'{cfg}: TLC no longer finds the expected counterexample to {inv}: law and universe out of step')
+    stats['laws-of-the-required-semantics'] = out
 
 
 C06_CLAUSES = {'fixpoint-shadowed-by-earlier-union-member', 'native-shadowed-by-earlier-union-member',
